@@ -8,7 +8,7 @@ R=${REGRESS_REPO:-/repo}
 export VERIF_REPO=$R
 cd /verif
 [ -z "$(git -C $R status --porcelain)" ] || { echo "$R is dirty"; exit 2; }
-IDS="$@"; [ -n "$IDS" ] || IDS=$(ls seeded)
+IDS="$@"; [ -n "$IDS" ] || IDS=$(ls seeded | grep -v REGRESSION)
 for id in $IDS; do
   d=seeded/$id
   patch=$d/patch.diff; [ -f $d/patch-current-tree.diff ] && patch=$d/patch-current-tree.diff
@@ -22,6 +22,23 @@ for id in $IDS; do
     ./check $p quick >/var/tmp/regress_${id}_$p.log 2>&1; rc=$?
     case $rc in 1) res="$res $p:CAUGHT";; 0) res="$res $p:missed";; *) res="$res $p:trouble($rc)";; esac
   done
+  if ! echo "$res" | grep -q CAUGHT; then
+    # does the change still break anything? its own demonstration decides
+    demo=$(ls $d/*_test.go.txt 2>/dev/null | head -1)
+    if [ -n "$demo" ]; then
+      pkg=$(grep -m1 '^package ' $demo | awk '{print $2}' | sed 's/_test$//')
+      pat=$(grep -o 'func Test[A-Za-z0-9_]*' $demo | sed 's/func //' | paste -sd'|')
+      if [ -d $R/src/$pkg ]; then
+        cp $demo $R/src/$pkg/zz_regress_demo_test.go
+        if (cd $R && go test -vet=off -count=1 -run "$pat" ./src/$pkg/ >/var/tmp/regress_demo_$id.log 2>&1); then
+          res="$res (its demonstration passes on the current tree: a later repair made the code robust against this change)"
+        else
+          res="$res (its demonstration still fails: NOT CAUGHT ANY MORE)"
+        fi
+        rm -f $R/src/$pkg/zz_regress_demo_test.go
+      fi
+    fi
+  fi
   git -C $R reset -q --hard HEAD
   echo "$id:$res"
 done
